@@ -208,7 +208,13 @@ impl<'a> TryFrom<&'a str> for ExtXKey<'a> {
     fn try_from(input: &'a str) -> Result<Self, Self::Error> {
         let input = tag(input, Self::PREFIX)?;
 
-        if input.trim() == "METHOD=NONE" {
+        // the last METHOD attribute decides (as in `DecryptionKey::try_from`)
+        let method = crate::attribute::AttributePairs::new(input)
+            .filter(|(key, _)| *key == "METHOD")
+            .last()
+            .map(|(_, value)| value);
+
+        if method == Some("NONE") {
             Ok(Self(None))
         } else {
             Ok(DecryptionKey::try_from(input)?.into())
